@@ -69,6 +69,10 @@ def tree_coq(t):
         return "(Leaf (PArr (mkvalue true true %s %s)))" % (coqstr(t[2]), coqlist(t[1], coqz))
     if k == "o":
         return "(Leaf PObj)"
+    if k == "M":      # a dict JAX cannot flatten (unorderable keys): only ever used with the bare PyTree, which accepts everything
+        return "(Node (KDict [\"1\"; \"two\"]) %s)" % coqlist(t[1], tree_coq)
+    if k == "F":      # a registered node whose flatten raises: likewise
+        return "(Leaf PObj)"
     if k == "K":      # an array-like object (shape, dtype) that is ALSO a registered pytree node
         return "(Leaf (PArr (mkvalue false true %s %s)))" % (coqstr(t[2]), coqlist(t[1], coqz))
     raise KeyError(k)
@@ -95,6 +99,8 @@ def leaf_coq(l, cat_dtypes):
         return "(LUnion %s)" % coqlist(l[1], lambda x: leaf_coq(x, cat_dtypes))
     if k == "arr":
         return "(LArr (%s %s %s))" % ("ACany" if len(l) > 3 and l[3] == "any" else "AC", coqopt(cat_dtypes[l[1]], lambda d: coqlist(d, coqstr)), coqstr(l[2]))
+    if k == "parr":
+        return leaf_coq(["arr", l[1], "2 " + l[2]], cat_dtypes)
     if k == "pytree":
         return "(LPyTree %s %s)" % (leaf_coq(l[1], cat_dtypes), coqopt(l[2], coqstr))
     raise KeyError(k)
@@ -113,6 +119,8 @@ def leaf_dims(l):
         return [d for x in l[1] for d in leaf_dims(x)]
     if l[0] == "arr":
         return [l[2]]
+    if l[0] == "parr":
+        return ["2 " + l[2]]
     if l[0] == "pytree":
         return leaf_dims(l[1])
     return []
